@@ -374,6 +374,30 @@ PROPS["C17"] = dict(
     assumptions=ASSUME_COMMON,
 )
 
+PROPS["C19"] = dict(
+    units=[dict(name="c19", src="props/c19.cpp", deps=["lib/pwc.hpp"])],
+    rule="case = numeric type x VEGAS (1-3 dims, 2-25 bins, alpha from {1.5, 0, 0.5, 3, random}, default or user grid) or "
+         "multi-channel (1-6 PWC channels, beta, minimum weight, default or user weights incl. zeros / unnormalised) x 1..6 "
+         "iterations of 0..2 or 10..160 calls x 4 integrand families x scripted engine (all canonical numbers known) x "
+         "uninterrupted or resumed through text at a generated set of boundaries; every logged call is checked "
+         "(inner_evaluations); non-trivial: >= 2 iterations whose state changed, or user supplied state; distinct = "
+         "distinct description; shim-MPI execution is covered by C04",
+    quick=dict(shards=8, cases=1200),
+    thorough=dict(shards=16, cases=60000),
+    floors={"user-state": 0.3, "resumed": 0.3, "VEGAS": 0.3, "MULTI": 0.3},
+    level_text="history invariant: results[0] records the user grid / the user weights through the documented "
+               "normalisation / the uniform default (bit for bit); results[k+1] and the checkpoint's next state are "
+               "bit-identical to the library's refinement of results[k] under the checkpoint's alpha / beta / minimum "
+               "weight; and the recorded state is the state sampled with: for every call the bin, point and weight equal an "
+               "independent inverse-CDF model of the recorded grid at the known random number, resp. the channel is the "
+               "interval of the recorded cumulative weights containing the known selection number and the weight is "
+               "jacobian / sum alpha_j p_j with the recorded alpha; exploration over generated histories",
+    level_note="trusted: the library's refinement functions as the definition of 'the refinement' (their correctness is "
+               "C07 / C08), the scripted engine, the 10-line inverse-CDF model and the harness's own channel maps",
+    technique="rapidcheck over choice tapes; scripted engine + history invariant on recorded vs sampled state",
+    assumptions=ASSUME_COMMON,
+)
+
 NOT_APPLICABLE = {}
 
 ENGINES = [
